@@ -96,7 +96,21 @@ pub fn gen_fix_program(rng: &mut Rng) -> (String, String) {
     7 => ("jsx-props-no-spread-multi".into(), "const a = <div {...p} x=\"1\" {...p} {...q} {...p} />;".into()),
     8 => ("no-window".into(), format!("{}window.{}; function f() {{ return window.location; }}", if rng.chance(1, 2) { "" } else { "const x = 1;\n" }, ["foo", "fetch()", "x.y"][rng.below(3)])),
     9 => ("no-window-prefix".into(), format!("window.{}();", ["fetch", "alert", "addEventListener"][rng.below(3)])),
-    10 => ("no-process-global".into(), format!("const e = process.{}; process.exit(1);", ["env.X", "argv", "cwd()"][rng.below(3)])),
+    10 => {
+      // with and without imports before the use; what follows the last import on its line may be a construct that
+      // continues on the next line (block comment, template, a statement broken over lines)
+      let use_ = format!("const e = process.{}; process.exit(1);", ["env.X", "argv", "cwd()"][rng.below(3)]);
+      let src = match rng.below(7) {
+        0 => use_,
+        1 => format!("import a from \"b\";\n{}", use_),
+        2 => format!("import a from \"b\"; /* the entry point\n of the tool */\n{}", use_),
+        3 => format!("import a from \"b\"; const usage = `\n ${{a}} ${{process.argv[1]}}\n`;"),
+        4 => format!("import a from \"b\"; // trailing\nimport c from \"d\"; f(\n  process.argv,\n);"),
+        5 => format!("import a from \"b\"; const s = \"x\\\n y\"; {}", use_),
+        _ => format!("import {{\n  a,\n}} from \"b\"; let v =\n  process.env;"),
+      };
+      ("no-process-global".into(), src)
+    }
     _ => ("no-node-globals".into(), format!("const b = {}; {}", ["Buffer.from(\"x\")", "global.y", "setImmediate(() => {})"][rng.below(3)], ["clearImmediate(1);", "Buffer;", ""][rng.below(3)])),
   }
 }
@@ -182,6 +196,24 @@ pub fn run(args: &Args) {
       gen_program(&mut crng, &corpus)
     };
     out.count(if case_no < args.count / 2 { "kind=corpus-stratified" } else if case_no < args.count * 2 / 3 { "kind=corpus" } else { "kind=recombined" });
+    let (rule, src) = if replay.is_some() {
+      (rule, src)
+    } else if crng.chance(1, 25) {
+      // volume: more than a hundred diagnostics of early rules before the program (and a non-ASCII tail), for
+      // anything that behaves differently under load
+      out.count("shape=volume");
+      let line = ["debugger;", "var v = 1;", "eval(\"x\");", "x == y;", "if (a) {} else {}", "new Symbol();", "for (;;) {}", "let u;"][crng.below(8)];
+      let k = crng.range(110, 171);
+      (rule, format!("{}\n{}\nconst nonAscii = \"é→\";\n", std::iter::repeat(line).take(k).collect::<Vec<_>>().join("\n"), src))
+    } else if crng.chance(1, 5) {
+      // end-of-file corner: the very last character of the file belongs to a comment / string / template /
+      // identifier / white space and is not ASCII; no trailing newline
+      out.count("shape=non-ascii-eof");
+      let tail = ["// é", "/* ✓ */", "\"é\"", "`π`", "π", "a;\u{a0}", "// ✓ 😀", "\"a\" // 😀"][crng.below(8)];
+      (rule, format!("{}\n{}", src.trim_end(), tail))
+    } else {
+      (rule, src)
+    };
     let exts: &[&str] = if rule.starts_with("jsx") || rule.starts_with("react") || rule.contains("fresh") || src.contains("</") || src.contains("/>") { &["tsx", "jsx", "ts"] } else { &["ts", "tsx", "js"] };
     let mut base: Option<(ParsedSource, Vec<LintDiagnostic>)> = None;
     let mut ext = "ts";
@@ -310,6 +342,35 @@ pub fn run(args: &Args) {
       if let Outcome::Ok(d3) = lint(&all, &src, ext) {
         if d3 != ds {
           out.found("C02", "history-dependent", &src, json!({"meta": meta, "history": other.src}));
+        }
+      }
+      // near-duplicate history: the same text under other media types and with regex flags toggled is linted first
+      // (caches keyed on part of what a verdict depends on), then the program; the reference is a fresh linter on a
+      // fresh thread (no instance state, no thread-local state)
+      {
+        for e2 in ["js", "ts", "jsx", "tsx", "mjs", "mts"] {
+          if e2 != ext {
+            let _ = lint(&all, &src, e2);
+          }
+        }
+        let toggled = src.replace("/u", "/\u{1}").replace("/g", "/gu").replace("/\u{1}", "/").replace("\"u\")", "\"\")").replace("\"g\")", "\"gu\")").replace("'u')", "'')");
+        if toggled != src {
+          let _ = lint(&all, &toggled, ext);
+          out.count("c02:flag-toggled-history");
+        }
+        let after = lint(&all, &src, ext);
+        let (src2, ext2) = (src.clone(), ext.to_string());
+        let reference = std::thread::spawn(move || {
+          let fresh = mk_linter(rules_by_codes(&all_codes()), &Words::default());
+          lint(&fresh, &src2, &ext2)
+        })
+        .join()
+        .unwrap_or(Outcome::Panic("thread".into()));
+        if let (Outcome::Ok(a), Outcome::Ok(r)) = (&after, &reference) {
+          if a != r {
+            let codes: std::collections::BTreeSet<&str> = a.iter().filter(|d| !r.contains(d)).chain(r.iter().filter(|d| !a.contains(d))).map(|d| d.code.as_str()).collect();
+            out.found("C02", &format!("near-duplicate-history:{}", codes.into_iter().collect::<Vec<_>>().join("+")), &src, json!({"meta": meta, "toggled": toggled, "after_history": a.iter().map(|d| d.json()).collect::<Vec<_>>(), "fresh_thread": r.iter().map(|d| d.json()).collect::<Vec<_>>()}));
+          }
         }
       }
       if case_no % 4 == 0 {
